@@ -2,7 +2,7 @@
 from common_tb import COMMON_TB
 
 CFG = dict(
-    id="C19", tie="Tie.C19", n_quick=36, n_thorough=400, thorough_seeds=3, gen_timeout=2400,
+    id="C19", tie="Tie.C19", n_quick=36, n_thorough=300, thorough_seeds=3, gen_timeout=2400,
     rule="a case is one HISTORY on the real document.Engine (store in a temp dir): random collection schema (2-5 typed "
          "fields INTEGER/DOUBLE/STRING/BOOLEAN/UUID incl. nested paths a.x, a.y.z, p.q.r.s, custom id field name; 0-2 "
          "indexes of 1-2 columns, some unique), then 12-41 random operations: InsertDocuments (1-3 documents: nested "
@@ -23,7 +23,10 @@ CFG = dict(
          "Each history (ops + observed ids / revisions / counts / errors) is replayed through the Coq model "
          "(Tie.C19.case_ok). A direct finding is attributed to a known cause only when the result IS what that cause "
          "predicts (re-evaluation with int64 truncation / NULL late columns) or the narrow input feature is present. "
-         "Scripted witness histories of every known finding run first on every run. Non-trivial: histories with at "
+         "Scripted witness histories of every known finding run first on every run. Three facts about the code are "
+         "probed on the real engine at the start of every run and handed to the model as `flags` (float keys keep the "
+         "sign of zero; INTEGER fields reject non-integral numbers; the unique check reads only the first key), so the "
+         "check follows the repairs proposed for C15 / C19 / C12 without edits. Non-trivial: histories with at "
          "least one successful write and one search returning a document; distinct by full history content.",
     trusted_base=COMMON_TB + [
         "modelled (coq/Doc/Model.v): structValueToSqlValue per field type incl. int64(float64) as compiled on amd64 "
